@@ -86,3 +86,14 @@ CLAIMED['C18'] = dict(
     note=('Shows absence of aliasing and of writes on the modelled heap, not value equality of snapshots. The streaming '
           'writer is stubbed while the DOM writer is analysed as observer (its own argument handling is covered by C09).'),
     technique='ownership/alias analysis over an abstract heap + effect (mutation-event) analysis + decorator lint')
+
+CLAIMED['C15'] = dict(
+    category='other',
+    text=('The BOM table is indexed, on every path of the stripping function, by the canonical codec name (value fact from '
+          'codecs.lookup(x).name); the folded table covers every codec of the platform registry that emits a BOM for a '
+          'newline (computed from the standard library at check time), has canonical keys, equal-length BOM tuples that '
+          'contain the emitted BOM and leave a non-empty newline; every .encode(E) of a newline constant in utils/text.py '
+          'and the writer is routed through the strip with the same E before use.'),
+    note=('Trusted: the stdlib codec registry / codecs.lookup canonicalisation on this platform. Behaviour of exotic codecs '
+          'on arbitrary text and the write/read equality that follows are not decided.'),
+    technique='value-fact dataflow (canonical-codec typestate) + table coverage against platform facts + def-use routing check')
